@@ -231,6 +231,84 @@ theorem T3_owned_only_by_piece_done (s s' : MState) (ev : Ev) (r : Reply) (hstep
         · exact keep _ k (fun _ => Status.missing) (fun _ _ => by simp) hnot hnow
         · exact hnot hnow
 
+/-! ### Manager and connection tasks together: every owned piece has been stored -/
+
+/-- Manager state plus the (ghost) list of piece indices for which some connection task has written a verified
+    piece file. `pieceDone a` is emitted by the task of peer `a` immediately after it stored verified data under the
+    listed hash of the piece it downloads (`C01_trace`); that piece is the manager model's `rx` of `a` (the ghost
+    field that mirrors the task's `piece_rx`, tied by the C10/C12 correspondence). -/
+structure SState where
+  m : MState
+  stored : List Nat
+  deriving Repr, DecidableEq
+
+def sstep (s : SState) (ev : Ev) : Option SState :=
+  match mstep s.m ev with
+  | .ok m' _ =>
+    some { m := m', stored := match ev with
+      | .pieceDone a _ => (match (findPeer s.m a).bind (·.rx) with | some y => y :: s.stored | none => s.stored)
+      | _ => s.stored }
+  | .panic _ => none
+
+inductive SReach : SState → Prop where
+  | init (n : Nat) : SReach { m := { statuses := List.replicate n .missing, peers := [] }, stored := [] }
+  | step (s s' : SState) (ev : Ev) : SReach s → Enabled s.m ev → sstep s ev = some s' → SReach s'
+
+theorem sreach_reach (s : SState) (h : SReach s) : Rdest.Props.C12.Reach s.m := by
+  induction h with
+  | init n => exact Rdest.Props.C12.Reach.init n
+  | step s s' ev _ hen hs ih =>
+    simp only [sstep] at hs
+    cases hm : mstep s.m ev with
+    | panic w => rw [hm] at hs; cases hs
+    | ok m' r =>
+      rw [hm] at hs
+      simp only [Option.some.injEq] at hs
+      rw [← hs]
+      exact Rdest.Props.C12.Reach.step s.m m' ev r ih hen hm
+
+/-- **T4 (C01, manager and any number of connection tasks).** In every reachable state — any number of peers, any
+    history of their events, every random piece choice — a piece the manager treats as owned (`Have`: served,
+    advertised, counted as done, used for the output files) is one for which a connection task has stored
+    hash-verified data. -/
+theorem T4_owned_pieces_have_been_stored (s : SState) (h : SReach s) (i : Nat) (hi : s.m.statuses[i]? = some .have) :
+    i ∈ s.stored := by
+  induction h generalizing i with
+  | init n =>
+    simp only [List.getElem?_replicate] at hi
+    split at hi <;> simp at hi
+  | step s s' ev hr hen hs ih =>
+    have hinv := Rdest.Props.C12.reach_inv s.m (sreach_reach s hr)
+    simp only [sstep] at hs
+    cases hm : mstep s.m ev with
+    | panic w => rw [hm] at hs; cases hs
+    | ok m' r =>
+      rw [hm] at hs
+      simp only [Option.some.injEq] at hs
+      subst hs
+      by_cases hold : s.m.statuses[i]? = some .have
+      · have := ih i hold
+        simp only
+        split
+        · split
+          · exact List.mem_cons_of_mem _ this
+          · exact this
+        · exact this
+      · obtain ⟨a, chosen, p, hev, hp, hpi⟩ := T3_owned_only_by_piece_done s.m m' ev r hm i hold hi
+        subst hev
+        -- the task could emit `PieceDone`: it is downloading some piece `y`, recorded as its assignment
+        obtain ⟨p', y, hp', hrx⟩ := hen
+        rw [hp] at hp'; cases hp'
+        have hpm := (findPeer_some hp).1
+        have := hinv.rxIdx p hpm y hrx
+        rw [hpi] at this; cases this
+        simp [hp, hrx]
+
+/-- Non-vacuity (test): a history in which a piece becomes owned, and it is in the stored list. -/
+example : ((((sstep { m := { statuses := [.missing], peers := [] }, stored := [] } (.add 0 1)).bind
+    (sstep · (.bitfield 0 [true] (some 0)))).bind (sstep · (.unchoke 0 (some 0)))).bind (sstep · (.pieceDone 0 none))).map
+    (fun s => (s.m.statuses, s.stored)) = some ([.have], [0]) := by decide
+
 /-! ### The whole trace of a connection task: every script -/
 
 def R01 (st : M01) (s : HState) : Prop := st.alive = s.alive ∧ (s.alive = true → st.want = hashOf s)
